@@ -10,7 +10,8 @@ except Exception as _e:  # back end missing: the three C properties are then not
 # units named *_fn (one-level functional contracts with uninterpreted kernels) are still under construction:
 # they are registered only once listed in STABLE_FN
 STABLE_FN = {
-    # quick (each < 50 s alone; 65 s wall for all eight with -j 4)
+    # quick (each < 50 s alone)
+    "blake3_compress_in_place_portable_fn", "blake3_compress_xof_portable_fn",
     "blake3_compress_in_place_fn", "blake3_compress_xof_fn", "blake3_hash_many_fn", "output_chaining_value_fn",
     "output_root_bytes_fn", "compress_parents_parallel_fn", "blake3_hasher_finalize_seek_fn", "blake3_hasher_finalize_fn",
     # thorough (2 - 6 min each)
@@ -40,7 +41,7 @@ if _U:
                       "assertions (complete when they pass)",
         "level_note": _CBMC_NOTE + "; NOT applicable: hand-written assembly (calling convention, callee-saved registers, "
                       "direction flag), C intrinsics files (cbmc aborts on vector casts), unsafe Rust intrinsics",
-        "units": {"quick": _units("C07", "quick") + [g("c_pointer_casts")], "thorough": _units("C07", "thorough")},
+        "units": {"quick": _units("C07", "quick") + [g("c_pointer_casts")], "thorough": _units("C07", "thorough") + [s("C07")]},
         "explanation": "memory safety, frames (exactly 32 bytes per hashed input, 64 per XOF block, out_len per finalize, "
                        "plus the hasher) and absence of UB of the C library's C sources, function by function",
         "uncovered": ["assembly kernels (.S): no verifier on this image reads x86 assembly -> calling convention part of the "
@@ -59,7 +60,7 @@ if _U:
         "level_note": _CBMC_NOTE + "; the FUNCTIONAL equality of the C library's output with the specification is NOT "
                       "decided (no inductive spec functions in CBMC contracts; ARX/UF reasoning measured not to scale past one "
                       "chunk): it remains an assumption",
-        "units": {"quick": _units("C06", "quick"), "thorough": _units("C06", "thorough")},
+        "units": {"quick": _units("C06", "quick"), "thorough": _units("C06", "thorough") + [s("C06")]},
         "explanation": "what contracts can decide about C06 without relating 7-round ARX outputs: state plumbing and shapes; "
                        "plus (thorough) one complete equivalence: the C portable compression function == the paper's",
         "uncovered": ["finalize_seek writes S[seek..seek+out_len] of the concatenated input (functional equality with the "
